@@ -171,7 +171,12 @@ def sweep_harmless(jobs=3, only=None):
             props_of[h] = {"H5": ["C02", "C05", "C06", "C08", "C09", "C10", "C13", "C14", "C16", "C18"],
                            "H6": ["C09", "C14", "C15", "C19"],
                            "H7": ["C01", "C02", "C03", "C04", "C16", "C20"],
-                           "H8": ["C05", "C06", "C08", "C10", "C11", "C12", "C13", "C19"]}.get(h[:2], allp)
+                           "H8": ["C05", "C06", "C08", "C10", "C11", "C12", "C13", "C19"],
+                           # third batch: the optimisations of round 8 done right (H9 is matched by h[:2] == "H9")
+                           "H9": ["C01", "C02", "C05", "C10", "C16", "C17", "C18"],
+                           "H10": ["C05", "C06", "C08", "C09", "C11", "C12", "C19"],
+                           "H11": ["C01", "C03", "C04", "C20"],
+                           "H12": ["C07", "C13", "C14", "C15", "C18"]}.get(h.split("-")[0], allp)
     if only:
         props_of = {h: ps for h, ps in props_of.items() if h in only}
     jobsl = [(h, p) for h in sorted(props_of) for p in props_of[h]]
